@@ -124,10 +124,17 @@ func reposMapDecode(b []byte) (ReposMap, error) {
 
 	// Length
 	l := r.uvarint()
+	if l < 0 || l > len(r.b) {
+		// Every entry takes at least one byte, so a larger count is garbage.
+		return nil, fmt.Errorf("malformed %s", r.typ)
+	}
 	m := make(map[uint32]MinimalRepoListEntry, l)
 
 	// Pre-allocate slice for all branches
 	allBranchesLen := r.uvarint()
+	if allBranchesLen < 0 || allBranchesLen > len(r.b) {
+		return nil, fmt.Errorf("malformed %s", r.typ)
+	}
 	allBranches := make([]RepositoryBranch, 0, allBranchesLen)
 
 	for range l {
@@ -138,6 +145,9 @@ func reposMapDecode(b []byte) (ReposMap, error) {
 			indexTimeUnix = int64(r.uvarint())
 		}
 		lb := r.uvarint()
+		if lb < 0 || lb > len(r.b) {
+			return nil, fmt.Errorf("malformed %s", r.typ)
+		}
 		for range lb {
 			allBranches = append(allBranches, RepositoryBranch{
 				Name:    r.str(),
@@ -174,7 +184,7 @@ func (b *binaryReader) uvarint() int {
 
 func (b *binaryReader) str() string {
 	l := b.uvarint()
-	if l > len(b.b) {
+	if l < 0 || l > len(b.b) {
 		b.b = nil
 		b.err = fmt.Errorf("malformed %s", b.typ)
 		return ""
